@@ -138,6 +138,7 @@ CaseRec ==
     [mode |-> sc.mode, delegates |-> sc.delegates, threshold |-> sc.threshold, local |-> sc.local,
      blocked |-> sc.blocked, followAll |-> sc.followAll, followed |-> sc.followed,
      useRefsAt |-> sc.useRefsAt, refsAt |-> sc.refsAt, canon |-> TRUE,
+     fewOffered |-> (~sc.useRefsAt /\ Cardinality({d \in Dels : OfferedValid(d)}) < Thr),
      srv |-> [ns \in NS |-> srv[ns]],
      loc |-> [ns \in NS |-> loc0[ns].sig],
      exp |-> [result |-> result, err |-> err, loc |-> [ns \in NS |-> loc[ns]],
